@@ -664,6 +664,9 @@ func (m *Machine) intrinsic(fn *ssa.Function, args []Value) (Value, bool) {
 		}
 		return VInt{bv: ite(c.bv, bvConstI(1, 64), bvConstI(0, 64))}, true
 	}
+	if full == "fmt.Sprintf" || full == "fmt.Sprint" || full == "fmt.Sprintln" || full == "encoding/hex.EncodeToString" {
+		return StrV{"<formatted>"}, true // formatting is not the subject: empty body
+	}
 	if strings.HasPrefix(full, "fmt.") {
 		return OpaqueV{"fmt"}, true
 	}
